@@ -128,12 +128,24 @@ func unquoteBytes(value []byte) []byte {
 					buf = append(buf, runeError()...)
 					value = value[len(value):]
 				} else {
-					var enc [3]byte
-					n := utf8.EncodeRune(enc[:],
-						rune(parseHexByte(value[2], value[3]))+
-							(rune(parseHexByte(value[0], value[1]))<<8))
-					buf = append(buf, enc[:n]...)
+					var enc [4]byte
+					r := rune(parseHexByte(value[2], value[3])) +
+						(rune(parseHexByte(value[0], value[1])) << 8)
 					value = value[4:]
+					if r >= 0xd800 && r < 0xdc00 && len(value) >= 6 &&
+						value[0] == '\\' && value[1] == 'u' {
+						// A UTF-16 surrogate pair, which is how JSON encoders
+						// that escape non-ASCII text write characters beyond
+						// U+FFFF.
+						r2 := rune(parseHexByte(value[4], value[5])) +
+							(rune(parseHexByte(value[2], value[3])) << 8)
+						if r2 >= 0xdc00 && r2 < 0xe000 {
+							r = 0x10000 + (r-0xd800)<<10 + (r2 - 0xdc00)
+							value = value[6:]
+						}
+					}
+					n := utf8.EncodeRune(enc[:], r)
+					buf = append(buf, enc[:n]...)
 				}
 			case 'U':
 				// four-byte hex-encoded unicode.
